@@ -22,6 +22,15 @@ static inline void phexlist(FILE *f, const double *v, int n)
 
 static inline double parsehex(const char *s) { return u2d(strtoull(s, NULL, 16)); }
 
+/* harness allocations are kept reachable from a static table so that a leak checker reports only the library's leaks */
+static void *hc_keep_tab[4096];
+static int hc_keep_n = 0;
+#ifdef HC_KEEP
+static inline void *hc_keep(void *p) { if (p && hc_keep_n < 4096) hc_keep_tab[hc_keep_n++] = p; return p; }
+#else
+static inline void *hc_keep(void *p) { (void) hc_keep_tab; (void) hc_keep_n; return p; }
+#endif
+
 /* parse comma separated hex doubles; "-" => NULL (returns -1), "_" => empty */
 static inline int parselist(const char *s, double **out)
 {
@@ -41,7 +50,7 @@ static inline int parselist(const char *s, double **out)
             if (*p == ',') ++p;
         }
     }
-    *out = v;
+    *out = (double *) hc_keep(v);
     return n;
 }
 
